@@ -22,6 +22,7 @@ package c05
 // each address once, and the allocated table holds exactly the model's live subscribers.
 
 import (
+	"context"
 	"errors"
 	"fmt"
 	"math"
@@ -29,6 +30,7 @@ import (
 	"strings"
 	"testing"
 	"testing/synctest"
+	"time"
 
 	"bngverif/internal/pools"
 	"bngverif/internal/vstat"
@@ -67,6 +69,8 @@ type runOpt struct {
 	failAt     int  // store call to fail (0 = none)
 	checkStats bool // compare Stats after every step
 	noDrain    bool
+	ctx        bool // generate the caller's context per op (Background / cancelled / expired / cancelled during the store write)
+	honourCtx  bool // the harness store refuses calls whose context is done (else it ignores contexts)
 }
 
 type result struct {
@@ -94,6 +98,9 @@ type run struct {
 	advances   int
 	advSince   map[string]int // advances since the subscriber's current assignment began
 	faulted    bool
+	ctxFault   bool            // a call failed with its context's error
+	cs         pools.CtxSetter // non-nil: the caller's context is a generated dimension
+	ctxTag     string          // context class of the call being made (for the history)
 	reasked    bool
 	reapplied  bool
 	orphans    []string // values a subscriber was moved away from by a re-ask: must be obtainable again
@@ -129,6 +136,9 @@ func (r *run) shape() string {
 	}
 	if r.faulted {
 		s += "/store-fail"
+	}
+	if r.ctxFault {
+		s += "/ctx-done"
 	}
 	return s
 }
@@ -399,7 +409,78 @@ func (r *run) stateCheck(after string) {
 	}
 }
 
-func injected(err error) bool { return err != nil && errors.Is(err, pools.ErrInjected) }
+// injected: the call failed because the harness made it fail - a refused store call, or the caller's context was done.
+func injected(err error) bool {
+	return err != nil && (errors.Is(err, pools.ErrInjected) || ctxDone(err))
+}
+
+func ctxDone(err error) bool {
+	return err != nil && (errors.Is(err, context.Canceled) || errors.Is(err, context.DeadlineExceeded))
+}
+
+// fault notes which kind of harness-made failure a history has seen and returns the signature tag for it.
+func (r *run) fault(err error) string {
+	if ctxDone(err) {
+		r.ctxFault = true
+		return "/ctx-done"
+	}
+	r.faulted = true
+	return "/store-fail"
+}
+
+// callCtx makes one call under the caller's context that op selects (a pure function of the generated op):
+// Background (6 of 10), already cancelled, deadline already passed, or cancelled WHILE the call's store write is in
+// flight (the write is held back at a gate of the harness store, the context is cancelled, then the write is
+// abandoned by a context-honouring store or let through by one that ignores contexts).
+func (r *run) callCtx(op pools.Op, s string, call func()) {
+	r.ctxTag = ""
+	if r.cs == nil {
+		call()
+		return
+	}
+	cls := int((op.P >> 4) % 10)
+	st, hasStore := r.p.(interface{ Store() *pools.MemStore })
+	switch {
+	case cls <= 5:
+		call()
+	case cls == 6 || (cls >= 8 && !hasStore):
+		ctx, cancel := context.WithCancel(context.Background())
+		cancel()
+		r.cs.SetContext(ctx)
+		r.ctxTag = "[ctx cancelled]"
+		call()
+		r.cs.SetContext(nil)
+		r.cls["ctx:cancelled"] = true
+	case cls == 7:
+		ctx, cancel := context.WithDeadline(context.Background(), time.Unix(1, 0))
+		r.cs.SetContext(ctx)
+		r.ctxTag = "[ctx expired]"
+		call()
+		r.cs.SetContext(nil)
+		cancel()
+		r.cls["ctx:expired"] = true
+	default:
+		g := st.Store().Park("", s, 1)
+		ctx, cancel := context.WithCancel(context.Background())
+		r.cs.SetContext(ctx)
+		r.ctxTag = "[ctx cancelled during the store write]"
+		done := make(chan struct{})
+		go func() { defer close(done); call() }()
+		select {
+		case <-g.Arrived():
+			cancel()
+			if !r.opt.honourCtx {
+				g.Open(false) // a store that ignores contexts completes the write
+			}
+			<-done
+			r.cls["ctx:cancelled-during-write"] = true
+		case <-done: // the call never reached the store
+			cancel()
+		}
+		g.Disarm()
+		r.cs.SetContext(nil)
+	}
+}
 
 // Pools of up to drainFull usable units are drained completely; on larger pools the probe is capped at
 // drainCap allocations, all of which must succeed.
@@ -500,6 +581,12 @@ func newRun(ft fataler, f pools.Factory, opt runOpt) *run {
 func runHistory(ft fataler, f pools.Factory, ops []pools.Op, opt runOpt) result {
 	r := newRun(ft, f, opt)
 	defer r.p.Close()
+	if opt.ctx {
+		r.cs, _ = r.p.(pools.CtxSetter)
+		if st, ok := r.p.(interface{ Store() *pools.MemStore }); ok {
+			st.Store().HonourContext(opt.honourCtx)
+		}
+	}
 	ep, _ := r.p.(pools.Epocher)
 	alt, _ := r.p.(pools.AltEntry)
 	maxAdvSinceAlloc := 0 // epoch advances that followed the first successful allocation
@@ -534,21 +621,21 @@ func runHistory(ft fataler, f pools.Factory, ops []pools.Op, opt runOpt) result 
 				if alt == nil {
 					continue
 				}
-				v, err = alt.AllocAlt(s)
+				r.callCtx(op, s, func() { v, err = alt.AllocAlt(s) })
 			} else {
-				v, err = r.p.Alloc(s)
+				r.callCtx(op, s, func() { v, err = r.p.Alloc(s) })
 			}
-			r.logf("%s(%s)=%s,%s", name, s, v, okerr(err))
+			r.logf("%s(%s)%s=%s,%s", name, s, r.ctxTag, v, okerr(err))
 			if err != nil {
 				if injected(err) {
-					r.faulted = true
+					tag := r.fault(err)
 					if holds {
 						if got, sup := r.lookup(s); sup && got != held {
-							r.fail("reask-lost/store-fail"+viaAlt(op.K), "alloc(%s) re-ask failed to persist and the pre-existing assignment %s was taken away (lookup=%q) although it was never released", s, held, got)
+							r.fail("reask-lost"+tag+viaAlt(op.K), "alloc(%s) re-ask failed to persist and the pre-existing assignment %s was taken away (lookup=%q) although it was never released", s, held, got)
 						}
 						r.maybe[s] = r.epoch() // a re-ask renews the lease; whether this one did is resolved by observation
 					} else if got, sup := r.lookup(s); sup && got != "" {
-						r.fail("failed-alloc-live/store-fail"+viaAlt(op.K), "alloc(%s) failed to persist but the pool still reports %q for it", s, got)
+						r.fail("failed-alloc-live"+tag+viaAlt(op.K), "alloc(%s) failed (%v) but the pool still reports %q for it", s, err, got)
 					}
 					break
 				}
@@ -582,18 +669,18 @@ func runHistory(ft fataler, f pools.Factory, ops []pools.Op, opt runOpt) result 
 				if alt == nil {
 					continue
 				}
-				err = alt.ReleaseAlt(s)
+				r.callCtx(op, s, func() { err = alt.ReleaseAlt(s) })
 				if holds {
 					r.cls["release-alt"] = true
 					r.secondary = true
 				}
 			} else {
-				err = r.p.Release(s)
+				r.callCtx(op, s, func() { err = r.p.Release(s) })
 			}
-			r.logf("%s(%s)=%s", name, s, okerr(err))
+			r.logf("%s(%s)%s=%s", name, s, r.ctxTag, okerr(err))
 			if err != nil {
 				if injected(err) {
-					r.faulted = true
+					r.fault(err)
 					if holds {
 						if got, sup := r.lookup(s); sup && got == held {
 							break // the release did not happen: still live
@@ -616,12 +703,13 @@ func runHistory(ft fataler, f pools.Factory, ops []pools.Op, opt runOpt) result 
 			if !ok {
 				continue
 			}
-			err := rn.Renew(s)
-			r.logf("renew(%s)=%s", s, okerr(err))
+			var err error
+			r.callCtx(op, s, func() { err = rn.Renew(s) })
+			r.logf("renew(%s)%s=%s", s, r.ctxTag, okerr(err))
 			if _, holds := r.has[s]; holds {
 				if err != nil {
 					if injected(err) {
-						r.faulted = true
+						r.fault(err)
 						r.maybe[s] = r.epoch()
 						break
 					}
@@ -883,6 +971,14 @@ func (r *run) finish(maxAdvSinceAlloc int) result {
 		if r.cls[c] {
 			cls = append(cls, "has:"+c)
 		}
+	}
+	for _, c := range []string{"ctx:cancelled", "ctx:expired", "ctx:cancelled-during-write"} {
+		if r.cls[c] {
+			cls = append(cls, "has:"+c+"@"+f.Impl)
+		}
+	}
+	if r.ctxFault {
+		cls = append(cls, "has:ctx-error@"+f.Impl)
 	}
 	for _, c := range []string{"conflicting-record", "conflicting-record/subject-holds-other"} {
 		if r.cls[c] {
